@@ -30,14 +30,16 @@ def unbe_term(s, b):
     t = unbe(b)
     s.assume(t >= 0)
     n = simp(z3.Length(b))
-    if z3.is_int_value(n):
-        w = n.as_long()
-        s.assume(t < 256 ** w)
-        s.assume(be(z3.IntVal(w), t) == b)
+    widths = [n.as_long()] if z3.is_int_value(n) else [1, 2, 4, 8]
+    for w in widths:
+        guard = (lambda z: z) if z3.is_int_value(n) else (lambda z, w=w: z3.Implies(z3.Length(b) == w, z))
+        s.assume(guard(t < 256 ** w))
+        s.assume(guard(be(z3.IntVal(w), t) == b))
         if w == 1:
-            s.assume(t == b[0])
+            s.assume(guard(t == b[0]))
         if w:
-            add_def(s, t == z3.Sum([b[i] * (256 ** (w - 1 - i)) for i in range(w)]))
+            # definitional instance (used only when a concrete model is needed for replay)
+            add_def(s, guard(t == z3.Sum([b[i] * (256 ** (w - 1 - i)) for i in range(w)])))
     return t
 
 
